@@ -150,6 +150,20 @@ def rule_exits(ctx, repo):
     ctx.check(ok, "C17.gate", "EIG.run", "pre-check failure returns before any computation",
               "EIG.run computes without passing the pre-check", f.W())
 
+    # the pre-check refuses a system without differential states on EVERY path that returns a true status
+    pcf = F.method(repo, "EIG", "_pre_check", EIG)
+    nz = [tn for tn in pcf.g.nodes() if pcf.g.data(tn)["kind"] == "test" and Q.match("system.dae.n == 0", pcf.g.data(tn)["ast"].test)]
+    truthy = [r for r in pcf.returns() if not falsy_return(pcf.g.data(r)["ast"].value)]
+    okn = bool(nz) and bool(truthy) and all(pcf.g.must_pass(pcf.g.entry, r, nz)[0] for r in truthy)
+    wit = ""
+    if nz and truthy and not okn:
+        for r in truthy:
+            good, p_ = pcf.g.must_pass(pcf.g.entry, r, nz)
+            if not good:
+                wit = pcf.g.fmt_path(p_)
+    ctx.check(okn, "C17.gate", "EIG._pre_check/no-states", "`dae.n == 0` is tested on every path that lets the analysis proceed",
+              "the no-dynamic-model refusal is skipped on the path %s: eigenvalue analysis of a static-only case returns success" % wit, pcf.W())
+
     # ---- System.setup
     f = F.method(repo, "System", "setup", SYSTEM)
     inc = exit_inc_nodes(f)
@@ -414,7 +428,7 @@ def run(ctx):
     ctx.rule("C17.exit", "every unsuccessful return of PFlow.run, TDS.run, TDS.test_init, EIG.run, System.setup passes an "
              "exit_code increment (frozen exception: repeated setup())", 9)
     ctx.rule("C17.success", "success flags are dominated by the routine's own residual / termination test", 6)
-    ctx.rule("C17.gate", "dependent computations are dominated by a PFlow.converged / is_setup / pre-check gate with early return", 6)
+    ctx.rule("C17.gate", "dependent computations are dominated by a PFlow.converged / is_setup / pre-check gate with early return; no-state refusal on every path", 7)
     ctx.rule("C17.aggregate", "CLI aggregation: failed load, None system, lists, missing file, parse failures; entry points propagate the exit status", 8)
     ctx.rule("C17.nan", "NaN exits precede state updates / success; the convergence measure is NaN-propagating", 5)
     ctx.rule("C17.sentinel", "linear-solver NaN sentinel propagation (rules shared with C16)", 4)
